@@ -243,6 +243,76 @@ def decl_case(case, acc: Acc):
         acc.sample({"declaration": text.split(chr(10))[ln], "hover": r["contents"]["value"]})
 
 
+# -------------------------------------------------------------------- siblings
+# Several entities declared by one statement: each hover restates the statement's type and attributes plus the
+# entity's own dimensions, and nothing a *separate* statement (EXTERNAL f) says about a sibling.
+SIB_TYPES = ["real", "integer", "real(8)"]
+
+
+def sibling_cases(full):
+    for typ in SIB_TYPES if full else SIB_TYPES[:2]:
+        for n in (2, 3):
+            for dims in range(-1, n):               # which entity has its own (3); -1 = none
+                for ext in range(-1, n):            # which entity a separate EXTERNAL statement names; -1 = none
+                    if ext == dims and ext >= 0:
+                        continue
+                    for ext_first in ((False, True) if ext >= 0 else (False,)):
+                        for attrs in ((), ("optional",)):
+                            for dcolon in ((True, False) if not attrs else (True,)):
+                                yield (typ, n, dims, ext, ext_first, attrs, dcolon)
+
+
+def sibling_case(case, acc: Acc):
+    typ, n, dims, ext, ext_first, attrs, dcolon = case
+    names = [f"e{i}" for i in range(n)]
+    ents = [nm + ("(3)" if i == dims else "") for i, nm in enumerate(names)]
+    L = ["module sibm", "  implicit none", "contains", f"  subroutine sib_host({', '.join(names)})"]
+    ext_stmt = f"    external {names[ext]}" if ext >= 0 else None
+    if ext_stmt and ext_first:
+        L.append(ext_stmt)
+    dl = len(L)
+    L.append("    " + typ + "".join(", " + a for a in attrs) + (" :: " if dcolon else " ") + ", ".join(ents))
+    if ext_stmt and not ext_first:
+        L.append(ext_stmt)
+    L += ["  end subroutine sib_host", "end module sibm"]
+    text = "\n".join(L) + "\n"
+    sc = worker_scratch("c11")
+    sc.wipe()
+    root = os.path.realpath(sc.path)
+    path = os.path.join(root, "s.f90")
+    with open(path, "w") as f:
+        f.write(text)
+    s = Server([])
+    s.initialize(root)
+    for i, nm in enumerate(names):
+        col = re.search(rf"\b{nm}\b", L[dl]).start()
+        r = s.result("textDocument/hover", Server.tdpp(path, dl, col + 1))
+        acc.case(nontrivial_key=(case, i), outcome=(typ, n, i == dims, i == ext))
+        tags = {"family": "siblings", "entity_has_dims": i == dims, "named_by_external": i == ext, "external_first": ext_first,
+                "sibling_external": ext >= 0 and i != ext, "nattrs": len(attrs)}
+        cs = {"case": repr(case), "text": text, "line": dl, "character": col + 1, "entity": nm}
+        h = parse_hover(r["contents"]["value"]) if isinstance(r, dict) and isinstance(r.get("contents"), dict) else None
+        if h is None:
+            acc.violation(Violation("siblings", {**tags, "obs": "no_hover"}, cs, "a hover", r, what=f"{case} {nm}: no hover"))
+            continue
+        want = {norm(a) for a in attrs} | ({"DIMENSION(3)"} if i == dims else set())
+        got = set(h["attrs"])
+        if i == ext:
+            got.discard("EXTERNAL")     # stated by a separate statement about this very entity: tolerated, not required
+        probs = []
+        if h["name"].lower() != nm:
+            probs.append(("name", nm, h["name"]))
+        if h["type"] != norm(typ):
+            probs.append(("type_or_selector", norm(typ), h["type"]))
+        if got != want:
+            probs.append(("attributes", sorted(want), sorted(h["attrs"])))
+        for what, w, g in probs:
+            acc.violation(Violation("siblings", {**tags, "obs": what}, cs, w, g,
+                                    what=f"{L[dl].strip()!r}{' + ' + ext_stmt.strip() if ext_stmt else ''}: hover of {nm}: {what}: expected {w}, got {g}"))
+    if len(acc.samples) < 1 and ext >= 0:
+        acc.sample({"text": text})
+
+
 # ------------------------------------------------------------------ procedures
 def proc_cases():
     for kind in ("subroutine", "function"):
@@ -471,6 +541,9 @@ def main(ctx):
                        "a parenthesised sub-expression inside an argument belongs to that argument of the enclosing call"]
     dacc = core.pmap(decl_case, decl_cases(maxattrs), chunk=16, budget_s=120, label="C11/decl")
     ctx.add_family("declarations", dacc, max_attributes=maxattrs)
+    bacc = core.pmap(sibling_case, sibling_cases(not ctx.quick), chunk=8, budget_s=120, label="C11/siblings")
+    ctx.add_family("siblings", bacc, what="2-3 dummy entities declared by one statement, one optionally with its own dimensions, one "
+                   "optionally named by a separate EXTERNAL statement before or after; hover on every entity")
     pacc = core.pmap(proc_case, proc_cases(), chunk=4, budget_s=120, label="C11/proc")
     ctx.add_family("procedures", pacc)
     sacc = core.pmap(sig_case, CALLS, chunk=1, budget_s=120, label="C11/sig")
@@ -482,6 +555,9 @@ def replay(rec):
     acc = Acc()
     if rec["family"] == "declarations":
         decl_case(eval(c["case"]), acc)
+    elif rec["family"] == "siblings":
+        sibling_case(eval(c["case"]), acc)
+        acc.violations = [v for v in acc.violations if v.case["entity"] == c["entity"]]
     elif rec["family"] == "procedures":
         proc_case(eval(c["case"]), acc)
     else:
